@@ -157,7 +157,21 @@ enum
 // op weights: rotations are drawn more often than the trivially exact builders
 static const int BUILD_OPS[] = { B44_TRANSLATION, B44_SCALE_UNIFORM, B44_SCALE_VEC, B44_SHEAR_VEC3, B44_SHEAR_SHEAR6, B44_EULER, B44_EULER, B44_EULER, B44_AXISANGLE, B44_AXISANGLE, B44_AXISANGLE, B33_ROTATION, B33_ROTATION, B33_SCALE_UNIFORM, B33_SCALE_VEC, B33_TRANSLATION, B33_SHEAR_SCALAR, B33_SHEAR_VEC2, B22_ROTATION, B22_ROTATION, B22_SCALE_UNIFORM, B22_SCALE_VEC };
 
-template <class T> static void build_case (vp::Ctx& c)
+// Generator policy of build_f / build_d (the draw sequence the saved replays were recorded with); build_near_* uses
+// BuildGenNear (end of this file) with the same checks.
+struct BuildGenDefault
+{
+    template <class M, class T, int N> int matrix (vp::Ctx& c, M& m) { return gen_matrix<M, T, N> (c.s, m); }
+    template <class T> Vec3<T>             point (vp::Ctx& c) { return gen_point<T> (c.s); }
+    template <class T> T                   param (vp::Ctx& c) { return gen_param<T> (c.s); }
+    template <class T> Vec3<T>             param3 (vp::Ctx& c) { return gen_param3<T> (c.s); }
+    template <class T> Vec2<T>             param2 (vp::Ctx& c) { return gen_param2<T> (c.s); }
+    template <class T> T                   angle (vp::Ctx& c) { return gen_angle<T> (c.s); }
+    template <class T> Vec3<T>             angle3 (vp::Ctx& c) { return gen_angle3<T> (c.s); }
+    template <class T> Vec3<T>             axis (vp::Ctx& c, int& cls) { return gen_axis<T> (c.s, cls); }
+};
+
+template <class T, class P> static void build_ops (vp::Ctx& c, P& pol)
 {
     vp::Src& s  = c.s;
     int      op = s.pick (BUILD_OPS);
@@ -168,17 +182,17 @@ template <class T> static void build_case (vp::Ctx& c)
     Matrix22<T> m2;
     int         kind = 0;
     if (op <= B44_AXISANGLE)
-        kind = gen_matrix<Matrix44<T>, T, 4> (s, m4);
+        kind = pol.template matrix<Matrix44<T>, T, 4> (c, m4);
     else if (op <= B33_SHEAR_VEC2)
-        kind = gen_matrix<Matrix33<T>, T, 3> (s, m3);
+        kind = pol.template matrix<Matrix33<T>, T, 3> (c, m3);
     else
-        kind = gen_matrix<Matrix22<T>, T, 2> (s, m2);
+        kind = pol.template matrix<Matrix22<T>, T, 2> (c, m2);
     if (kind == 2)
     {
         c.label (BL_NONAFFINE);
         c.nt ();
     }
-    Vec3<T> p3 = gen_point<T> (s);
+    Vec3<T> p3 = pol.template point<T> (c);
     Vec2<T> p2 (p3.x, p3.y);
     if (op <= B44_AXISANGLE)
     {
@@ -195,7 +209,7 @@ template <class T> static void build_case (vp::Ctx& c)
     {
         case B44_TRANSLATION:
         {
-            Vec3<T> t = gen_param3<T> (s);
+            Vec3<T> t = pol.template param3<T> (c);
             VP_NOTE (c, TN<T>::n () << " M44.setTranslation t=" << vstr (t, 3) << " previous=" << mstr (m4, 4) << " p=" << vstr (p3, 3));
             const Matrix44<T>& r = m4.setTranslation (t);
             VP_REQUIRE (c, &r == &m4, "m44-setTranslation/returns-this", "does not return *this");
@@ -207,7 +221,7 @@ template <class T> static void build_case (vp::Ctx& c)
         }
         case B44_SCALE_UNIFORM:
         {
-            T sc = gen_param<T> (s);
+            T sc = pol.template param<T> (c);
             VP_NOTE (c, TN<T>::n () << " M44.setScale(T) s=" << sc << " previous=" << mstr (m4, 4) << " p=" << vstr (p3, 3));
             const Matrix44<T>& r = m4.setScale (sc);
             VP_REQUIRE (c, &r == &m4, "m44-setScale(T)/returns-this", "does not return *this");
@@ -217,7 +231,7 @@ template <class T> static void build_case (vp::Ctx& c)
         }
         case B44_SCALE_VEC:
         {
-            Vec3<T> sc = gen_param3<T> (s);
+            Vec3<T> sc = pol.template param3<T> (c);
             VP_NOTE (c, TN<T>::n () << " M44.setScale(Vec3) s=" << vstr (sc, 3) << " previous=" << mstr (m4, 4) << " p=" << vstr (p3, 3));
             const Matrix44<T>& r = m4.setScale (sc);
             VP_REQUIRE (c, &r == &m4, "m44-setScale(Vec3)/returns-this", "does not return *this");
@@ -228,7 +242,7 @@ template <class T> static void build_case (vp::Ctx& c)
         case B44_SHEAR_VEC3:
         {
             // h[0]: x for each y, h[1]: x for each z, h[2]: y for each z
-            Vec3<T> h = gen_param3<T> (s);
+            Vec3<T> h = pol.template param3<T> (c);
             VP_NOTE (c, TN<T>::n () << " M44.setShear(Vec3) h=" << vstr (h, 3) << " previous=" << mstr (m4, 4) << " p=" << vstr (p3, 3));
             const Matrix44<T>& r = m4.setShear (h);
             VP_REQUIRE (c, &r == &m4, "m44-setShear(Vec3)/returns-this", "does not return *this");
@@ -239,7 +253,7 @@ template <class T> static void build_case (vp::Ctx& c)
         {
             T h[6];
             for (int i = 0; i < 6; ++i)
-                h[i] = gen_param<T> (s);
+                h[i] = pol.template param<T> (c);
             Shear6<T> sh (h[0], h[1], h[2], h[3], h[4], h[5]); // xy xz yz yx zx zy
             VP_NOTE (c, TN<T>::n () << " M44.setShear(Shear6) xy=" << h[0] << " xz=" << h[1] << " yz=" << h[2] << " yx=" << h[3] << " zx=" << h[4] << " zy=" << h[5] << " previous=" << mstr (m4, 4) << " p=" << vstr (p3, 3));
             VP_REQUIRE (c, sh.xy == h[0] && sh.xz == h[1] && sh.yz == h[2] && sh.yx == h[3] && sh.zx == h[4] && sh.zy == h[5], "shear6-ctor-order", "Shear6 constructor argument order");
@@ -250,7 +264,7 @@ template <class T> static void build_case (vp::Ctx& c)
         }
         case B44_EULER:
         {
-            Vec3<T> a = gen_angle3<T> (s);
+            Vec3<T> a = pol.template angle3<T> (c);
             bool    multi = std::fabs (a.x) > 3.2 || std::fabs (a.y) > 3.2 || std::fabs (a.z) > 3.2;
             if (multi)
             {
@@ -268,8 +282,8 @@ template <class T> static void build_case (vp::Ctx& c)
         case B44_AXISANGLE:
         {
             int     cls;
-            Vec3<T> ax  = gen_axis<T> (s, cls);
-            T       ang = gen_angle<T> (s);
+            Vec3<T> ax  = pol.template axis<T> (c, cls);
+            T       ang = pol.template angle<T> (c);
             if (cls == 2) c.label (BL_AXIS_TINY);
             if (cls == 3) c.label (BL_AXIS_HUGE);
             if (cls == 4) c.label (BL_AXIS_GRADED);
@@ -289,7 +303,7 @@ template <class T> static void build_case (vp::Ctx& c)
         }
         case B33_ROTATION:
         {
-            T ang = gen_angle<T> (s);
+            T ang = pol.template angle<T> (c);
             if (std::fabs (ang) > 3.2)
             {
                 c.label (BL_MULTIPERIOD);
@@ -303,7 +317,7 @@ template <class T> static void build_case (vp::Ctx& c)
         }
         case B33_SCALE_UNIFORM:
         {
-            T sc = gen_param<T> (s);
+            T sc = pol.template param<T> (c);
             VP_NOTE (c, TN<T>::n () << " M33.setScale(T) s=" << sc << " previous=" << mstr (m3, 3) << " p=" << vstr (p2, 2));
             const Matrix33<T>& r = m3.setScale (sc);
             VP_REQUIRE (c, &r == &m3, "m33-setScale(T)/returns-this", "does not return *this");
@@ -313,7 +327,7 @@ template <class T> static void build_case (vp::Ctx& c)
         }
         case B33_SCALE_VEC:
         {
-            Vec2<T> sc = gen_param2<T> (s);
+            Vec2<T> sc = pol.template param2<T> (c);
             VP_NOTE (c, TN<T>::n () << " M33.setScale(Vec2) s=" << vstr (sc, 2) << " previous=" << mstr (m3, 3) << " p=" << vstr (p2, 2));
             const Matrix33<T>& r = m3.setScale (sc);
             VP_REQUIRE (c, &r == &m3, "m33-setScale(Vec2)/returns-this", "does not return *this");
@@ -323,7 +337,7 @@ template <class T> static void build_case (vp::Ctx& c)
         }
         case B33_TRANSLATION:
         {
-            Vec2<T> t = gen_param2<T> (s);
+            Vec2<T> t = pol.template param2<T> (c);
             VP_NOTE (c, TN<T>::n () << " M33.setTranslation t=" << vstr (t, 2) << " previous=" << mstr (m3, 3) << " p=" << vstr (p2, 2));
             const Matrix33<T>& r = m3.setTranslation (t);
             VP_REQUIRE (c, &r == &m3, "m33-setTranslation/returns-this", "does not return *this");
@@ -335,7 +349,7 @@ template <class T> static void build_case (vp::Ctx& c)
         }
         case B33_SHEAR_SCALAR:
         {
-            T xy = gen_param<T> (s);
+            T xy = pol.template param<T> (c);
             VP_NOTE (c, TN<T>::n () << " M33.setShear(scalar) xy=" << xy << " previous=" << mstr (m3, 3) << " p=" << vstr (p2, 2));
             const Matrix33<T>& r = m3.setShear (xy);
             VP_REQUIRE (c, &r == &m3, "m33-setShear(scalar)/returns-this", "does not return *this");
@@ -345,7 +359,7 @@ template <class T> static void build_case (vp::Ctx& c)
         case B33_SHEAR_VEC2:
         {
             // h.x: x for each y, h.y: y for each x
-            Vec2<T> h = gen_param2<T> (s);
+            Vec2<T> h = pol.template param2<T> (c);
             VP_NOTE (c, TN<T>::n () << " M33.setShear(Vec2) h=" << vstr (h, 2) << " previous=" << mstr (m3, 3) << " p=" << vstr (p2, 2));
             const Matrix33<T>& r = m3.setShear (h);
             VP_REQUIRE (c, &r == &m3, "m33-setShear(Vec2)/returns-this", "does not return *this");
@@ -354,7 +368,7 @@ template <class T> static void build_case (vp::Ctx& c)
         }
         case B22_ROTATION:
         {
-            T ang = gen_angle<T> (s);
+            T ang = pol.template angle<T> (c);
             if (std::fabs (ang) > 3.2)
             {
                 c.label (BL_MULTIPERIOD);
@@ -368,7 +382,7 @@ template <class T> static void build_case (vp::Ctx& c)
         }
         case B22_SCALE_UNIFORM:
         {
-            T sc = gen_param<T> (s);
+            T sc = pol.template param<T> (c);
             VP_NOTE (c, TN<T>::n () << " M22.setScale(T) s=" << sc << " previous=" << mstr (m2, 2) << " p=" << vstr (p2, 2));
             const Matrix22<T>& r = m2.setScale (sc);
             VP_REQUIRE (c, &r == &m2, "m22-setScale(T)/returns-this", "does not return *this");
@@ -378,7 +392,7 @@ template <class T> static void build_case (vp::Ctx& c)
         }
         default:
         {
-            Vec2<T> sc = gen_param2<T> (s);
+            Vec2<T> sc = pol.template param2<T> (c);
             VP_NOTE (c, TN<T>::n () << " M22.setScale(Vec2) s=" << vstr (sc, 2) << " previous=" << mstr (m2, 2) << " p=" << vstr (p2, 2));
             const Matrix22<T>& r = m2.setScale (sc);
             VP_REQUIRE (c, &r == &m2, "m22-setScale(Vec2)/returns-this", "does not return *this");
@@ -387,6 +401,12 @@ template <class T> static void build_case (vp::Ctx& c)
             break;
         }
     }
+}
+
+template <class T> static void build_case (vp::Ctx& c)
+{
+    BuildGenDefault pol;
+    build_ops<T> (c, pol);
 }
 
 #define C09_BUILD_RULE                                                                                                 \
@@ -400,5 +420,100 @@ VP_REQUIRE_LABELS (build_d, C09_BUILD_LABELS)
 
 #include "c09_inplace.h"
 #include "c09_frames.h"
+
+// ===================================================================================================================
+// 4. builders again, at and around the special cases an implementation could single out: previous contents from the
+//    structured generator, parameters 0 / 2^-k / +-1 +- 2^-k / up to 2^20, angles +-0 / 2^-k / j*pi/2 +- 2^-k, axes of
+//    length 1 +- 2^-k (k = 4 .. digits+3), points with coordinates up to 2^20.  Same oracle and bounds as build_*:
+//    measured worst (C09_MEASURE, 4e6 cases per type): see the comment at the sub-check definitions.
+// ===================================================================================================================
+enum
+{
+    BNL0 = BL_AXIS_GRADED + 1 // first near / structured label id of build_near_*
+};
+struct BuildGenNear
+{
+    int l0;
+    template <class M, class T, int N> int matrix (vp::Ctx& c, M& m) { return near_matrix<M, T, N> (c, m, l0); }
+    template <class T> Vec3<T>             point (vp::Ctx& c) { return gen_spoint<T> (c.s); }
+    template <class T> T                   param (vp::Ctx& c)
+    {
+        int cls;
+        T   v = gen_near_param<T> (c.s, cls);
+        near_param_label (c, cls, l0);
+        return v;
+    }
+    template <class T> Vec3<T> param3 (vp::Ctx& c)
+    {
+        Vec3<T> v;
+        for (int i = 0; i < 3; ++i)
+            v[i] = param<T> (c);
+        return v;
+    }
+    template <class T> Vec2<T> param2 (vp::Ctx& c)
+    {
+        Vec2<T> v;
+        for (int i = 0; i < 2; ++i)
+            v[i] = param<T> (c);
+        return v;
+    }
+    template <class T> T angle (vp::Ctx& c)
+    {
+        int cls;
+        T   v = gen_near_angle<T> (c.s, cls);
+        near_angle_label (c, cls, l0);
+        return v;
+    }
+    template <class T> Vec3<T> angle3 (vp::Ctx& c)
+    {
+        Vec3<T> v;
+        for (int i = 0; i < 3; ++i)
+            v[i] = angle<T> (c);
+        return v;
+    }
+    // axis of length 1 +- 2^-k: a coordinate axis (exactly +-(1 + d)), or a generic direction normalised in quad,
+    // scaled by 1 + d and rounded; 1/4: the axis classes of build_*
+    template <class T> Vec3<T> axis (vp::Ctx& c, int& cls)
+    {
+        vp::Src& s = c.s;
+        Vec3<T>  a ((T) 0, (T) 0, (T) 0);
+        int      k;
+        int      ac = (int) s.below (4);
+        if (ac == 3) return gen_axis<T> (s, cls);
+        cls = 6;
+        c.label (l0 + NL_AXIS_NEAR_UNIT);
+        c.nt ();
+        if (ac == 0)
+        {
+            int    i  = (int) s.below (3);
+            bool   ng = s.coin ();
+            double d  = gen_pert<T> (s, k);
+            a[i]      = (T) (ng ? -(1.0 + d) : 1.0 + d);
+            return a;
+        }
+        for (int i = 0; i < 3; ++i)
+            a[i] = (T) s.uniform (-1.0, 1.0);
+        if (a.x == 0 && a.y == 0 && a.z == 0) a.z = 1;
+        double d = gen_pert<T> (s, k);
+        Q3     u = unit (toq (a)) * ((quad) 1 + (quad) d);
+        return Vec3<T> ((T) u.x, (T) u.y, (T) u.z);
+    }
+};
+template <class T> static void build_near_case (vp::Ctx& c)
+{
+    BuildGenNear pol;
+    pol.l0 = BNL0;
+    build_ops<T> (c, pol);
+}
+#define C09_BUILD_NEAR_RULE                                                                                            \
+    "one of 16 builders (rotations weighted x2-3) called on a matrix whose previous contents come from the structured generator (11 bases + {0, 1, -1, generic} mask, see inplace_structured_*); parameters from {0, +-2^-k, +-1 +- 2^-k, +-1, up to 2^20, generic}, angles from {+-0, +-2^-k, j*pi/2 +- 2^-k and neighbouring values, generic}, k = 4..digits+3; setAxisAngle axes of length 1 +- 2^-k (coordinate axis or generic direction; 1/4 the tiny / huge / graded classes); points with coordinates up to 2^20; oracle and bounds as build_*; non-trivial = a 2^-k class, masked previous contents, or as build_*"
+#define C09_BUILD_NEAR_REQUIRED                                                                                        \
+    "m44_setTranslation", "m44_setScale_uniform", "m44_setScale_vec", "m44_setShear_vec3", "m44_setShear_shear6", "m44_setEulerAngles", "m44_setAxisAngle", "m33_setRotation", "m33_setScale_uniform", "m33_setScale_vec", "m33_setTranslation", "m33_setShear_scalar", "m33_setShear_vec2", "m22_setRotation", "m22_setScale_uniform", "m22_setScale_vec", "previous_contents_nonaffine", "matrix_identity", "matrix_identity_plus_2^-k_Eij", "matrix_projective_column_last_row_0001", "matrix_mask_0_1_-1_generic_applied", "param_zero", "param_2^-k", "param_+-1+-2^-k", "param_+-1", "param_up_to_2^20", "angle_zero", "angle_2^-k", "angle_j*pi/2+-2^-k", "axis_length_1+-2^-k"
+VP_RANDOM (build_near_f, 300000, 6000000, C09_BUILD_NEAR_RULE) { build_near_case<float> (c); }
+VP_LABELS (build_near_f, C09_BUILD_LABELS, C09_NEAR_LABELS)
+VP_REQUIRE_LABELS (build_near_f, C09_BUILD_NEAR_REQUIRED)
+VP_RANDOM (build_near_d, 300000, 6000000, C09_BUILD_NEAR_RULE) { build_near_case<double> (c); }
+VP_LABELS (build_near_d, C09_BUILD_LABELS, C09_NEAR_LABELS)
+VP_REQUIRE_LABELS (build_near_d, C09_BUILD_NEAR_REQUIRED)
 
 VP_MAIN ("C09")
